@@ -169,8 +169,10 @@ func precompiles(f Fork) []common.Address {
 	return out
 }
 
+var precompileSets = [...][]common.Address{Cancun: precompiles(Cancun), Prague: precompiles(Prague), Osaka: precompiles(Osaka)}
+
 func isPrecompile(f Fork, a common.Address) bool {
-	for _, p := range precompiles(f) {
+	for _, p := range precompileSets[f] {
 		if p == a {
 			return true
 		}
@@ -315,7 +317,7 @@ func (b *Block) Apply(tx *Tx) *Result {
 	// EIP-2929 / 2930 / 3651 warm sets
 	st.warmAddr[tx.From] = true
 	st.warmAddr[env.Coinbase] = true
-	for _, p := range precompiles(env.Fork) {
+	for _, p := range precompileSets[env.Fork] {
 		st.warmAddr[p] = true
 	}
 	for _, t := range tx.AccessList {
